@@ -35,11 +35,18 @@ class UserRuntimeError(RuntimeError):
         self.tag = tag
 
 
+BUILTIN_EXC = {2: TypeError, 3: KeyError, 4: LookupError, 5: ZeroDivisionError, 6: AttributeError, 7: StopIteration, 8: AssertionError, 9: IndexError}
+
+
 def make_exc(tag):
     if tag == 0:
         return RecursionError("injected")
     if tag == 1:
         return ValueError("injected")
+    if tag in BUILTIN_EXC:
+        e = BUILTIN_EXC[tag]("injected %d" % tag)  # a built-in exception type, marked so that it is recognised again
+        e.tag = tag
+        return e
     if 20 <= tag < 30:
         return UserBaseExc(tag)
     if 30 <= tag < 40:
@@ -50,7 +57,7 @@ def make_exc(tag):
 def exc_str(e):
     if isinstance(e, RecursionError):
         return "err RecursionError"
-    if isinstance(e, (UserExc, UserBaseExc, UserRuntimeError)):
+    if isinstance(e, (UserExc, UserBaseExc, UserRuntimeError)) or isinstance(getattr(e, "tag", None), int):
         return "err User%d" % e.tag
     return "err " + C.exc_name(e)
 
@@ -123,7 +130,9 @@ class Built:
                 self.owner[id(p)] = i
                 if s.get("which") is not None:
                     w = gen.which_to_py(s["which"])
-                    o = PWithSelection(p, w)
+                    wf = s.get("which_form", "tuple")
+                    # the selection in another iterable type; one-shot forms are legal for a source that is evaluated once
+                    o = PWithSelection(p, list(w) if wf == "list" else iter(w) if wf == "iter" else (x for x in w) if wf == "gen" else w)
                     C.clear_caches()
                     pres = [(r, c) for r, c in p.rolls_with_counts(*w)]
                 else:
@@ -290,7 +299,7 @@ def run_impl(case):
             if isinstance(e, (KeyboardInterrupt, SystemExit, C.CaseTimeout)):
                 raise
             s = exc_str(e)
-            if b.raised and isinstance(e, (UserExc, UserBaseExc, UserRuntimeError)) and e is not b.raised[-1]:
+            if b.raised and isinstance(getattr(e, "tag", None), int) and e is not b.raised[-1]:
                 s += " (not the raised object)"
             outs.append(s)
     return " ; ".join(outs)
